@@ -18,6 +18,7 @@ Proof.
   - rewrite Z.eqb_eq. split; congruence.
   - rewrite str_eqb_eq. split; congruence.
   - rewrite N.eqb_eq. split; congruence.
+  - rewrite N.eqb_eq. split; congruence.
 Qed.
 
 Lemma id_eqb_refl i : id_eqb i i = true.
@@ -1493,4 +1494,58 @@ Example reentrant_poll :
   views (rrun evs) = [(Resolved 1 5, 1%N); (Failed EBase 0 [] 0, 0%N); (Resolved 1 0, 1%N);
                       (Resolved 0 3, 0%N); (Failed EBase 1 [] 0, 0%N)] /\
   futs (rrun evs) = [] /\ rtypes (rrun evs) = [] /\ length (rtrace evs) = 11.
+Proof. vm_compute. repeat split. Qed.
+
+(* ------------------------------------------------------------------ ids that were never issued *)
+(* the ids of the futures of a run are exactly the ids its sends were issued with *)
+Lemma oid_rts_run evs : forall s, Inv s -> compat s evs ->
+  oid_rts (run_from s evs) = oid_rts s ++ sent evs (next s).
+Proof.
+  induction evs as [|e r IH]; intros s I C; [cbn [run_from fold_left sent]; symmetry; apply app_nil_r|].
+  change (run_from s (e :: r)) with (run_from (step s e) r).
+  pose proof (compat_head s e r C) as OK.
+  rewrite (IH (step s e) (inv_step s e I OK) (compat_tail s e r I C)).
+  rewrite (oid_rts_step s e I OK), (step_next s e). destruct (is_send e) eqn:S.
+  - destruct e as [m rt cb mid| | | | | | |]; try discriminate. rewrite sent_send, <- app_assoc. reflexivity.
+  - rewrite (sent_other e r _ S). destruct e; try discriminate; reflexivity.
+Qed.
+
+(* unissued_id_affects_nothing: a response - result or error, any code / message / data / payload -
+   whose id is none of the ids pygls has issued leaves every future as it is.  In particular
+   `"id": null` (INull) and ids that are no int / string at all (IOdd: a fractional number, a list,
+   an object), which send_request never issues: whatever is outstanding - nothing, one request,
+   many - no request is "the one the peer must have meant". *)
+Theorem unissued_id_affects_nothing evs i :
+  injective_supply evs -> disjoint_directions evs -> valid_results evs -> lsp_codes evs ->
+  ~ In i (sent_ids evs 0%N) ->
+  (forall p oks, ofuts (step (run evs) (RecvResult i p oks)) = ofuts (run evs)) /\
+  (forall c m d, ofuts (step (run evs) (RecvError i c m d)) = ofuts (run evs)).
+Proof.
+  intros A B C D NI. pose proof (compat_init evs A B C D) as CI.
+  apply stray_dup_noop; [apply inv_run; [exact inv_init|exact CI]|].
+  intros k o G _ E. apply NI. unfold sent_ids.
+  pose proof (oid_rts_run evs init inv_init CI) as R. cbn [oid_rts init ofuts map app next] in R.
+  fold (run evs) in R. rewrite <- R, <- E. eapply in_oids. exact G.
+Qed.
+
+(* send_request never issues null (msg_id=None means "draw a uuid") nor a non-int / non-string id *)
+Definition issuable (i : id) : bool := match i with INull | IOdd _ => false | _ => true end.
+
+Corollary null_id_affects_nothing evs :
+  injective_supply evs -> disjoint_directions evs -> valid_results evs -> lsp_codes evs ->
+  forallb issuable (sent_ids evs 0%N) = true ->
+  forall i, issuable i = false ->
+  (forall p oks, ofuts (step (run evs) (RecvResult i p oks)) = ofuts (run evs)) /\
+  (forall c m d, ofuts (step (run evs) (RecvError i c m d)) = ofuts (run evs)).
+Proof.
+  intros A B C D IS i NI. apply unissued_id_affects_nothing; try assumption.
+  intros H. rewrite forallb_forall in IS. rewrite (IS i H) in NI. discriminate.
+Qed.
+
+Example null_id_one_outstanding :
+  let evs := [UserSend 0 1 (CbUser KNone) (Some (IInt 7))] in
+  views (run (evs ++ [RecvError INull 5 [109%N] 0; RecvResult INull 0 [1%N]; RecvError (IOdd 0) 0 [] 0]))
+    = [(Pending, 0%N)] /\
+  errs (run (evs ++ [RecvError INull 5 [109%N] 0; RecvResult INull 0 [1%N]; RecvError (IOdd 0) 0 [] 0])) = 3%N /\
+  views (run (evs ++ [RecvError INull 5 [109%N] 0; RecvResult (IInt 7) 0 [1%N]])) = [(Resolved 1 0, 1%N)].
 Proof. vm_compute. repeat split. Qed.
